@@ -106,7 +106,7 @@ def c03_9(ctx: Ctx):
     ctx.check(len(early) == 3, fi, fi.node, "no-op when the patch has no ret, the block has no function, or the function has no known return site", f"early returns: {conds}")
 
 
-@rule("C16.8", ["C16", "C17", "C15"], "ABI constant tables (caller-saved sets, label prefixes, return columns) have the reviewed values", 10)
+@rule("C16.8", ["C16", "C17", "C15", "C13"], "ABI constant tables (caller-saved sets, label prefixes, return columns) have the reviewed values", 10)
 def c16_8(ctx: Ctx):
     repo = ctx.repo
 
